@@ -27,7 +27,32 @@ uint64_t interesting_double(Rng &r) {
                                     0x7ff0000000000000ULL, 0xfff0000000000000ULL, 0x7ff8000000000000ULL, 0x7ff0000000000001ULL,
                                     0xfff8dead0000beefULL, 0x7fe1ccf385ebc8a0ULL /*1e308*/, 0x0000000000000001ULL, 0x400921fb54442d18ULL,
                                     0x3fb999999999999aULL, 0xc1e0000000000000ULL};
-    if (r.chance(1, 2)) return pats[r.below(sizeof pats / sizeof pats[0])];
+    // values at which the TEXT of a number changes its length: powers of ten 1e-7..1e22 (as bit patterns: no floating-point
+    // arithmetic in a generator, its result must not depend on the compiler), just below a power of ten by less than the six
+    // printed decimals (rounds up to one more digit), powers of two around the integer widths, the extremes
+    static const uint64_t edge[] = {
+        0x3e7ad7f29abcaf48ULL, 0x3eb0c6f7a0b5ed8dULL, 0x3ee4f8b588e368f1ULL, 0x3f1a36e2eb1c432dULL, 0x3f50624dd2f1a9fcULL, 0x3f847ae147ae147bULL,
+        0x3fb999999999999aULL, 0x3ff0000000000000ULL, 0x4024000000000000ULL, 0x4059000000000000ULL, 0x408f400000000000ULL, 0x40c3880000000000ULL,
+        0x40f86a0000000000ULL, 0x412e848000000000ULL, 0x416312d000000000ULL, 0x4197d78400000000ULL, 0x41cdcd6500000000ULL, 0x4202a05f20000000ULL,
+        0x42374876e8000000ULL, 0x426d1a94a2000000ULL, 0x42a2309ce5400000ULL, 0x42d6bcc41e900000ULL, 0x430c6bf526340000ULL, 0x4341c37937e08000ULL,
+        0x4376345785d8a000ULL, 0x43abc16d674ec800ULL, 0x43e158e460913d00ULL, 0x4415af1d78b58c40ULL, 0x444b1ae4d6e2ef50ULL, 0x4480f0cf064dd592ULL,
+        0x3feffffef39085f5ULL, 0x3fefffff29406b2aULL, 0x4023ffffef39085fULL, 0x4023fffff29406b3ULL, 0x4058fffffde7210cULL, 0x4058fffffe5280d6ULL,
+        0x408f3fffffbce421ULL, 0x408f3fffffca501bULL, 0x40c387fffffbce42ULL, 0x40c387fffffca502ULL, 0x40f869ffffff79c8ULL, 0x40f869ffffff94a0ULL,
+        0x412e847fffffef39ULL, 0x412e847ffffff294ULL, 0x416312cffffffef4ULL, 0x416312cfffffff29ULL, 0x4197d783ffffffdeULL, 0x4197d783ffffffe5ULL,
+        0x41cdcd64fffffffcULL, 0x41cdcd64fffffffdULL, 0x41e0000000000000ULL, 0x41f0000000000000ULL, 0x4330000000000000ULL, 0x4340000000000000ULL,
+        0x43d0000000000000ULL, 0x43e0000000000000ULL, 0x43f0000000000000ULL, 0x4400000000000000ULL, 0x4630000000000000ULL, 0x7fe0000000000000ULL,
+        0x43e56a95319d63e1ULL, 0x43efffffffffffffULL, 0x3fe0000000000000ULL, 0x3ea0c6f7a0b5ed8dULL, 0x3ea07111652d2b5cULL, 0x0010000000000000ULL,
+        0x7fefffffffffffffULL, 0x44b52d02c7e14af6ULL, 0x54b249ad2594c37dULL, 0x7e37e43c8800759cULL};
+    unsigned c = (unsigned)r.below(100);
+    if (c < 35) return pats[r.below(sizeof pats / sizeof pats[0])];
+    if (c < 65) {
+        uint64_t v = edge[r.below(sizeof edge / sizeof edge[0])];
+        unsigned t = (unsigned)r.below(8);
+        if (t == 0) v += 1 + r.below(3); else if (t == 1) v -= 1 + r.below(3);        // a few ulps beside it
+        else if (t == 2) v += r.below(1ULL << 50);                                     // same magnitude, other digits
+        if (r.chance(1, 2)) v |= 0x8000000000000000ULL;
+        return v;
+    }
     return r.next();
 }
 
@@ -58,10 +83,26 @@ Bytes gen_bytes(Rng &r, const GenKnobs &k, int maxlen) {
 }
 
 // ---------------------------------------------------------------- generator
+void pick_name_family(Rng &r, GenKnobs &k) {
+    static const int L[] = {3, 4, 5, 7, 8, 9, 11, 12, 13, 15, 16, 17, 20, 23, 24, 25, 31, 32, 33, 40};
+    int n = L[r.below(20)];
+    bool ascii = r.chance(2, 3);
+    k.stem.clear();
+    for (int i = 0; i < n; i++) k.stem.push_back(ascii ? (r.chance(1, 7) ? (uint8_t)'_' : (uint8_t)('a' + r.below(26))) : (uint8_t)(1 + r.below(255)));
+    k.stem_pct = 40 + (int)r.below(60);
+}
+
 static Bytes gen_name(Rng &r, const GenKnobs &k, const std::vector<Bytes> &existing) {
     for (int attempt = 0; attempt < 50; attempt++) {
         Bytes n;
-        if (!existing.empty() && r.chance(35, 100)) {
+        if (!k.stem.empty() && r.chance((unsigned)k.stem_pct, 100)) {
+            // a family of names: common stem (or a prefix of it) + a short tail, the way real field names look
+            // ("certificate_chain_1" / "certificate_chain_2"); comparisons then run over long equal prefixes
+            n = k.stem;
+            if (r.chance(1, 6)) n.resize(r.below(n.size() + 1));
+            size_t tl = r.below(9);
+            for (size_t i = 0; i < tl; i++) n.push_back(r.chance(1, 3) ? (uint8_t)('0' + r.below(10)) : alpha_byte(r, k.alphabet));
+        } else if (!existing.empty() && r.chance(35, 100)) {
             n = existing[r.below(existing.size())];          // prefix / extension of a present name
             if (!n.empty() && r.chance(1, 2)) n.pop_back();
             else n.push_back(alpha_byte(r, k.alphabet));
@@ -436,9 +477,20 @@ std::string fault_apply(Rng &r, Bytes &doc, int kind, const Bytes *other) {
             else if (c < 75 && !ts.empty()) { off = ts[r.below(ts.size())] + 1 + r.below(2); if (off >= doc.size()) off = doc.size() - 1; }  // a length / value byte
             else off = r.below(doc.size());
             unsigned m = (unsigned)r.below(100);
+            if (m >= 85 && m < 95 && !ts.empty()) {
+                // a length / integer field that is a small NEGATIVE number when read as signed, written over the field's full width
+                size_t t0 = ts[r.below(ts.size())];
+                int w = 0;
+                switch (doc[t0]) { case 0x10: case 0x14: case 0x18: w = 1; break; case 0x11: case 0x15: case 0x19: w = 2; break; case 0x12: case 0x16: case 0x1a: w = 4; break; case 0x13: w = 8; break; default: break; }
+                if (w && t0 + 1 + (size_t)w <= doc.size()) {
+                    int64_t v = -(int64_t)(1 + r.below(r.chance(1, 2) ? 4 : 24));
+                    for (int i = 0; i < w; i++) doc[t0 + 1 + (size_t)i] = (uint8_t)((uint64_t)v >> (8 * i));
+                    return fmt("F2:neg@%zu=%lld/%d", t0 + 1, (long long)v, w);
+                }
+            }
             if (m < 35) { int bit = (int)r.below(8); doc[off] ^= (uint8_t)(1u << bit); return fmt("F2:flip@%zu.%d", off, bit); }
             if (m < 80) { uint8_t v = subs[r.below(sizeof subs)]; doc[off] = v; return fmt("F2:set@%zu=%02x", off, v); }
-            if (m < 90 && off + 4 <= doc.size()) { doc[off] = 0xff; doc[off + 1] = 0xff; doc[off + 2] = 0xff; doc[off + 3] = 0x7f; return fmt("F2:hugelen@%zu", off); }
+            if (m < 85 && off + 4 <= doc.size()) { doc[off] = 0xff; doc[off + 1] = 0xff; doc[off + 2] = 0xff; doc[off + 3] = 0x7f; return fmt("F2:hugelen@%zu", off); }
             { uint8_t v = (uint8_t)r.below(256); doc[off] = v; return fmt("F2:set@%zu=%02x", off, v); }
         }
         case 3: {   // F3 reorder / duplicate / drop / insert in transit
